@@ -57,7 +57,10 @@ class C01(Prop):
             prof = r.choice(["core", "core", "core", "tags", "typo"])
             opts = [[88, False], [88, True], [r.randint(20, 60), r.random() < 0.5], [r.randint(6, 20), r.random() < 0.5],
                     [r.choice([0, -1, 10 ** 6]), r.random() < 0.5]]
-            yield {"kind": "doc", "seed": r.getrandbits(40), "profile": prof, "opts": opts}
+            c = {"kind": "doc", "seed": r.getrandbits(40), "profile": prof, "opts": opts}
+            if i % 10 == 7:
+                c["scale"] = 8 if i % 20 == 7 else 3  # sizes small random cases never reach (vf/gen_doc.py, scale)
+            yield c
         for i in range(6 if tier == "quick" else 60):
             tag_o, tag_c = r.choice([("{% field %}", "{% /field %}"), ("{# a #}", "{# /a #}"), ("<!-- f -->", "<!-- /f -->")])
             num = r.choice(["1999", "7", "12", "1"])
@@ -124,7 +127,7 @@ class C01(Prop):
 
     # ------------------------------------------------------------------ documents
     def _check_doc(self, case, col):
-        d = gen_doc(case["seed"], case["profile"], layout_seed=case.get("layout_seed"))
+        d = gen_doc(case["seed"], case["profile"], layout_seed=case.get("layout_seed"), scale=case.get("scale", 1))
         self.judge_document(d.text, d.feats, case["profile"], case["opts"], case, col)
 
     def judge_document(self, text, feats, profile, opts, case, col):
